@@ -115,6 +115,15 @@ struct Summary {
     harness_errors: Vec<String>,
 }
 
+/// every case runs on a thread with this stack size (workers, replays, traced and isolated runs alike), so that
+/// a stack overflow reproduces identically
+pub const WORKER_STACK: usize = 8 << 20;
+
+/// Run one case on a fresh thread with the standard worker stack size.
+pub fn run_one_threaded(def: &'static PropDef, tier: Tier, seed: u64, idx: u64, verbose: bool) -> Result<Case, String> {
+    std::thread::Builder::new().stack_size(WORKER_STACK).spawn(move || run_one(def, tier, seed, idx, verbose)).expect("spawn").join().unwrap_or_else(|_| Err("case thread panicked".into()))
+}
+
 pub fn case_rng(prop: &str, seed: u64, idx: u64) -> Rng {
     Rng::new(mix(mix(seed, hash_str(prop)), idx))
 }
@@ -183,7 +192,7 @@ pub fn run_prop(def: &'static PropDef, tier: Tier, seed: u64, threads: usize, ca
 
     std::thread::scope(|s| {
         for _ in 0..threads {
-            s.spawn(|| loop {
+            std::thread::Builder::new().stack_size(WORKER_STACK).spawn_scoped(s, || loop {
                 let idx = next.fetch_add(1, Ordering::Relaxed);
                 if idx >= total {
                     break;
@@ -230,7 +239,7 @@ pub fn run_prop(def: &'static PropDef, tier: Tier, seed: u64, threads: usize, ca
                         }
                     }
                 }
-            });
+            }).expect("spawn worker thread");
         }
     });
 
@@ -247,7 +256,7 @@ pub fn run_prop(def: &'static PropDef, tier: Tier, seed: u64, threads: usize, ca
         if seen_sig.contains(&v.sig) {
             continue;
         }
-        match run_one(def, tier, seed, *idx, false) {
+        match run_one_threaded(def, tier, seed, *idx, false) {
             Ok(c2) if c2.viols.iter().any(|x| x.sig == v.sig) => {
                 seen_sig.insert(v.sig.clone());
                 confirmed.push((*idx, v.clone()));
